@@ -30,7 +30,7 @@ type sreq struct {
 
 type sparams struct {
 	Algo    string
-	Storage string // memory | injected
+	Storage string // memory | injected | keeping (see ttlStorage)
 	Skip    string
 	Limit   int
 	Reqs    []sreq
@@ -73,8 +73,11 @@ func runSched(p sparams) func(e *schedx.Exec) *schedx.Outcome {
 			if p.Algo == "sliding" {
 				cfg.LimiterMiddleware = limiter.SlidingWindow{}
 			}
-			if p.Storage == "injected" {
+			switch p.Storage {
+			case "injected":
 				cfg.Storage = &yStorage{}
+			case "keeping":
+				cfg.Storage = &yStorage{ttlStorage{keep: true}}
 			}
 			cfg.SkipFailedRequests = p.Skip == "failed"
 			cfg.SkipSuccessfulRequests = p.Skip == "successful"
@@ -235,6 +238,10 @@ func runSchedules(r *core.Run, depth int, alpha []hop, cfgs []hcfg) {
 			add(fmt.Sprintf("%s-%s-skipfailed-3req-limit1", algo, st), sparams{Algo: algo, Storage: st, Skip: "failed", Limit: 1,
 				Reqs: []sreq{{"f1", "a", 500}, {"r1", "a", 200}, {"r2", "a", 200}}, Probe: 1}, b2, b3, false)
 		}
+		// two keys in one window over a storage that keeps the value slices it is given
+		add(fmt.Sprintf("%s-keeping-2req-limit2-otherkey", algo), sparams{Algo: algo, Storage: "keeping", Skip: "none", Limit: 2, Reqs: append(same(2, 200), sreq{ID: "o1", Key: "b", Status: 200}), Probe: 1}, b2, b3, false)
+		add(fmt.Sprintf("%s-keeping-skipfailed-giveback-limit2-otherkey", algo), sparams{Algo: algo, Storage: "keeping", Skip: "failed", Limit: 2,
+			Reqs: []sreq{{"f1", "a", 500}, {"r1", "a", 200}, {"o1", "b", 200}}, Probe: 2}, b2, b3, false)
 	}
 	if !r.IsWorker() {
 		crashed := r.SpawnWorkers(16, []string{"GOMAXPROCS=2"})
@@ -261,7 +268,7 @@ func runSchedules(r *core.Run, depth int, alpha []hop, cfgs []hcfg) {
 			"history_transitions":       r.P.Counters["transitions"],
 			"unspecified_skipped":       r.P.Counters["unspecified_skipped"],
 			"downstream_status_differs": r.P.Counters["downstream_status_differs"],
-			"rule":                      "Harness A: every sequence of exactly `history_depth` operations over the alphabet (requests on 2 keys with downstream status 200/500 and optional slow handler that moves the virtual clock past the window; clock ticks) x 36 configurations {fixed,sliding}x{memory,injected storage}x{no skip,SkipFailed,SkipSuccessful}x{Max=2, MaxFunc a->1 b->3 (Max=5), MaxFunc->0}; fresh app per history, oracle after every step against a two-sided window model (must-admit if even counting all arrivals leaves budget, must-reject if the hits that reached the handler exhaust it). Further families (history_families; one operation shorter unless stated), same oracle: unset-config-fields+window3 = Config fields left at their zero value singly and together (Max -> documented 5, Expiration -> 1 minute, KeyGenerator -> c.IP() with two peers, limiter.New() without argument) and a 3 s window, with letters that repeat a request 4-5 times and ticks relative to the window (base depth); handler-kinds+bypass = histories with at least one request whose handler returns an error (fiber.Error / plain error; the status is written by the error handler after the middleware unwound) or that Config.Next exempts; per-request-limit = MaxFunc takes the limit from the request (one key, limits 1 and 3; base depth); overlap = the next k operations (ticks, whole requests) happen while one request's handler runs, its completion (give-back of a skipped hit) meets the window the others rolled; uncopied-key-reused-ctx = KeyGenerator returns c.Get(..) uncopied and all requests arrive on one reused fasthttp.RequestCtx. A violating history of a family is re-run with each added dimension switched off: violations that vanish get one signature per class and configuration (`only-with=<dimension>`). A panic while serving a request is recovered and reported (request-panicked). Harness B: all interleavings of the concurrent scenarios under the cooperative scheduler within the stated preemption bounds; oracle = counted handler runs <= limit, no rejection when arrivals fit, porcupine linearizability of the hit counter, no deadlock/panic.",
+			"rule":                      "Harness A: every sequence of exactly `history_depth` operations over the alphabet (requests on 2 keys with downstream status 200/500 and optional slow handler that moves the virtual clock past the window; clock ticks) x 36 configurations {fixed,sliding}x{memory,injected storage}x{no skip,SkipFailed,SkipSuccessful}x{Max=2, MaxFunc a->1 b->3 (Max=5), MaxFunc->0}; fresh app per history, oracle after every step against a two-sided window model (must-admit if even counting all arrivals leaves budget, must-reject if the hits that reached the handler exhaust it). Further families (history_families; one operation shorter unless stated), same oracle: unset-config-fields+window3 = Config fields left at their zero value singly and together (Max -> documented 5, Expiration -> 1 minute, KeyGenerator -> c.IP() with two peers, limiter.New() without argument) and a 3 s window, with letters that repeat a request 4-5 times and ticks relative to the window (base depth); handler-kinds+bypass = histories with at least one request whose handler returns an error (fiber.Error / plain error; the status is written by the error handler after the middleware unwound) or that Config.Next exempts; per-request-limit = MaxFunc takes the limit from the request (one key, limits 1 and 3; base depth); overlap = the next k operations (ticks, whole requests) happen while one request's handler runs, its completion (give-back of a skipped hit) meets the window the others rolled; uncopied-key-reused-ctx = KeyGenerator returns c.Get(..) uncopied and all requests arrive on one reused fasthttp.RequestCtx; value-keeping-storage+interleaved-keys = the external storage keeps the value slice (and key string) handed to Set and returns it from Get uncopied, as gofiber/storage/memory and internal/storage/memory do (the `injected` storage copies), under histories of two keys interleaved in one window with letters that send three requests in a row (a key exhausts its budget, the other key arrives, the first again, and the reverse; base depth; both algorithms x all skip options x {Max=2, MaxFunc a->1 b->3}). A violating history of a family is re-run with each added dimension switched off: violations that vanish get one signature per class and configuration (`only-with=<dimension>`). A panic while serving a request is recovered and reported (request-panicked). Harness B (storages: memory, injected = copying, keeping = value slices kept; the latter with requests of a second key in the window): all interleavings of the concurrent scenarios under the cooperative scheduler within the stated preemption bounds; oracle = counted handler runs <= limit, no rejection when arrivals fit, porcupine linearizability of the hit counter, no deadlock/panic.",
 		})
 		cov["transitions"] = r.P.Counters["points"] + r.P.Counters["transitions"]
 		cov["traces_validated_against_impl"] = r.P.Counters["executions"] + r.P.Counters["histories"]
